@@ -10,20 +10,20 @@ CLAIMED = {
         text='Inductive step obligations: from any state in which the pool manager holds, per denom, the summed reserves of two pools sharing a denom plus a '
              'symbolic non-negative excess (and per pool the locked 1000 LP plus excess), every operation reached through the public messages (swap, two-asset '
              'deposit, single-asset deposit via sub-message + reply, withdrawal; routed swaps in the thorough tier) leaves balance - reserves equal to the same '
-             'excess (plus amount mod 2 for single-asset deposits) and the LP holdings unchanged. One step from an arbitrary invariant state covers histories of any length.',
+             'excess (plus amount mod 2 for single-asset deposits) and the LP holdings unchanged. One step from an arbitrary invariant state covers histories of any length. Also: locked deposits across both contracts (LP goes to the farm manager, reserves stay backed) and a three-asset stableswap pool with the Curve arithmetic abstracted (accounting only).',
         ref='DESIGN.md §6 C01',
         note=TRUST + 'Pool creation (nothing kept) and first deposits (minimum liquidity locked) are discharged under C16 / C02; rejected operations change nothing by the rollback rule.'),
     'C02': dict(
         text='Step obligations on the real provide_liquidity / withdraw_liquidity reached through the public execute entry point, from an arbitrary '
              'funded or empty constant-product pool (reserves, LP supply, deposits, LP amounts full 128-bit symbols): mint formulas, '
              'never-more-than-proportional, value-per-LP monotone, exact floor share on withdrawal, locked minimum liquidity. One inductive step from an '
-             'arbitrary state covers histories of any length. Stableswap value monotonicity is outside the claim (needs the Newton solver, see C19).',
+             'arbitrary state covers histories of any length. Stableswap value monotonicity is outside the claim (needs the Newton solver, see C19). Also: three-asset stableswap pool with the Curve arithmetic abstracted: first deposit locks the decimals-scaled minimum liquidity, withdrawals burn what was sent and pay the floor pro-rata share of EVERY asset.',
         ref='DESIGN.md §6 C02',
         note=TRUST + 'Pre-state invariant: pool manager holds >= reserves and exactly the locked 1000 LP; LP holder owns <= supply-1000.'),
     'C03': dict(
         text='Constant product: perform_swap executed symbolically for all reserves, offers, tolerances and every fee configuration accepted by the real '
              'PoolFee::is_valid (0 and 2 extra fees): stored x\'*y\' >= x*y, gross output < reserve; same-pool round trip never profitable (2 swaps, '
-             'using the product lemma proved in the same run). Stableswap D-monotonicity is outside the claim (C19).',
+             'using the product lemma proved in the same run). Stableswap D-monotonicity is outside the claim (C19). C03.K1 carries algorithmic truncation probes (reserves above 1e18 with x*y = 1, 2 mod N) as counterexample candidates for 18-decimal truncation slips.',
         ref='DESIGN.md §6 C03',
         note=TRUST + 'Round trips through different pools are price arbitrage and are not asserted.'),
     'C04': dict(
@@ -44,14 +44,14 @@ CLAIMED = {
     'C06': dict(
         text='Bounded histories of claims by two explicit users (plus an aggregated remainder of other users) on one farm, executed through the public '
              'Claim message from symbolic weights/rates: every rightful claim succeeds in any order, each user is paid exactly the ledger sum of their '
-             'epoch shares (nothing before their weight took effect, nothing twice), the total stays within emission x elapsed epochs and the budget.',
+             'epoch shares (nothing before their weight took effect, nothing twice), the total stays within emission x elapsed epochs and the budget. Also: a user with positions in two LP tokens whose identifiers interleave the tokens (each LP paid exactly once, farm books exactly the payment).',
         ref='DESIGN.md §6 C06',
         note=TRUST + 'Bounded: 3 claims, window of 10 epochs, concrete snapshot epochs; sum of user weights <= total weight is assumed (C10).'),
     'C07': dict(
         text='Claims executed through the public Claim message on a bounded epoch window (current epoch 10, concrete snapshot / farm epochs, symbolic '
              'weights, rates and budgets): the amount paid equals an independent ledger sum of floor(emission * weight in effect / total in effect); cursor, '
              'claimed_amount, weights after the claimed span and other users are checked; Rewards query equals Claim; splitting a claim with until_epoch '
-             'pays the same total (relational, two executions).',
+             'pays the same total (relational, two executions). Also: a user with positions in two LP tokens (per-LP sums, Rewards query per denom); thorough tier: EVERY shape of the epoch window (second snapshot x until_epoch x cursor x three farm spans) and every split epoch.',
         ref='DESIGN.md §6 C07',
         note=TRUST + 'Bounded: 2 explicit users plus an aggregated remainder, 1-2 farms, window of 10 epochs; the weight-history representation invariant '
              '(no snapshot older than the claim cursor) is assumed in pre-states.'),
@@ -65,7 +65,7 @@ CLAIMED = {
         note=TRUST + 'Identifiers are concrete (fresh / taken).'),
     'C09': dict(
         text='calculate_emergency_penalty executed symbolically (amount, duration, base penalty, times full range): <= 90%, equals the capped product with '
-             'the code\'s 18-decimal floors, zero once unlocked, non-increasing in time.',
+             'the code\'s 18-decimal floors, zero once unlocked, non-increasing in time. Also: 12 farms on the LP token with the only active one last in identifier order (beyond a default listing page).',
         ref='DESIGN.md §6 C09',
         note=TRUST + 'Handler-level split of the penalty between fee collector and farm owners is covered by the position step obligations when built.'),
     'C10': dict(
@@ -87,7 +87,7 @@ CLAIMED = {
         text='Relational obligations: Simulation vs Swap on the same symbolic constant-product state (all amounts equal on every accepted path); '
              'SimulateSwapOperations vs ExecuteSwapOperations over a 2-hop route with the pricing kernel as an uninterpreted function (glue only); '
              'reverse quote + 1 unit suffices (zero fees: full range; with fees: three fixed fee configurations, ask < 1e18 while the recorded precision '
-             'finding is open).',
+             'finding is open). Reverse quote: five fixed fee configurations incl. one and two extra fees, native replay ReverseSimulation -> Simulation(q+1).',
         ref='DESIGN.md §6 C12',
         note=TRUST + 'Paths where the forward swap of the quote is itself refused are outside the reverse-quote obligation.'),
     'C13': dict(
@@ -107,14 +107,14 @@ CLAIMED = {
     'C15': dict(
         text='Complete case split (contract x privileged message x sender role x pending transfer x funds), each case decided on the real dispatchers and the '
              'cw-ownable / mantra-utils code executed from their MIR: accepted only from the authorised role and without funds, storage unchanged on rejection, '
-             'ownership moves only by propose + accept or ends by renounce.',
+             'ownership moves only by propose + accept or ends by renounce. The position / farm authorisation obligations of C08 (withdraw, close, create, expand, emergency exit: sender roles incl. the pool manager) and C11 (farm expand / close) are registered here as well.',
         ref='DESIGN.md §6 C15',
         note=TRUST + 'Farm / position authorisations are part of C08 and C11.'),
     'C16': dict(
         text='create_pool executed through the public CreatePool message with symbolic creation fee, token-factory fee coins (none / other denom / same '
              'denom / both) and arbitrary attached amounts: accepted iff funds equal exactly the required fees, fee routed to the collector, nothing kept, '
              'parameter validation (asset counts, duplicates, decimals length, fee bounds, amp, identifier well-formed and unused) decided over the whole case '
-             'split with symbolic fee shares; deposits keep every immutable pool field and the asset order.',
+             'split with symbolic fee shares; deposits keep every immutable pool field and the asset order. CreatePool parameter violations are replayed natively; three-asset stableswap pool: immutable fields and asset order unchanged by deposits, withdrawals, swaps.',
         ref='DESIGN.md §6 C16',
         note=TRUST + 'Identifiers are concrete strings (fresh / taken / malformed); immutability is checked on deposits, swaps and withdrawals via the reserve-only '
              'post-conditions of C02/C04.'),
@@ -122,13 +122,13 @@ CLAIMED = {
         text='Relational step obligations through the public messages on two funded pools sharing a denom, the three switches of one pool symbolic (all 8 '
              'combinations): each way of swapping / depositing / withdrawing on that pool (direct swap, routed hop in either position, two-asset deposit, single-asset '
              'deposit through the sub-message + reply chain, withdrawal) is rejected when its switch is off; otherwise outcome, balances and reserves equal a second '
-             'execution with every switch on (non-interference), also for the other pool. Toggle writes only the named pool.',
+             'execution with every switch on (non-interference), also for the other pool. Toggle writes only the named pool. Also: locked deposits (one and two assets) under all 8 switch states, across both contracts.',
         ref='DESIGN.md §6 C17',
         note=TRUST + 'Routes use the pricing kernel as an uninterpreted function (glue only); the other operations run the real kernel and are replayable.'),
     'C18': dict(
         text='Bounded symbolic execution of the real MIR of query_current_epoch / query_epoch with genesis, duration, block time and epoch id as '
              'unconstrained 64-bit symbols; every feasible path is decided by z3 (unsat of pre ∧ path ∧ ¬post). Full u64 ranges, no loop, so the only '
-             'bound is the type width; counterexamples are replayed against the real contracts before being reported.',
+             'bound is the type width; counterexamples are replayed against the real contracts before being reported. Also: what instantiate and UpdateConfig accept (duration >= 86400, genesis >= block time) for any stored configuration, full u64 ranges.',
         ref='DESIGN.md §6 C18',
         note='Trusted: rustc MIR lowering, the MIR executor and its library models (validated differentially against the native build), z3. '
              'The epoch configuration is assumed to satisfy duration >= 86400 (established by instantiate/update_config).'),
@@ -137,7 +137,7 @@ CLAIMED = {
              'fail (k symbolic over the positions); decided on the real code: every emitted sub-message is reply-never or reply-on-success (pool manager) / reply-never or '
              'the refund of a farm-closing operation with reply-on-error id 1 (farm manager; no other operation may tolerate a failure), hence any other internal failure fails the whole message; the failing close-farm refund '
              'neither blocks the close (manual or automatic) nor touches other farms, positions or balances. State equality after a failed message follows from the '
-             'platform rollback rule, which is assumed.',
+             'platform rollback rule, which is assumed. Also: a locked deposit whose top-up the farm manager refuses (closed position / other LP token) fails as a whole (cross-contract).',
         ref='DESIGN.md §6 C20',
         note=TRUST + 'Routes / single-asset deposits use the pricing kernel as an uninterpreted function here (control flow only).'),
 }
